@@ -159,6 +159,7 @@ class Run:
         self.outer_ctx: Any = None
         self.unrelated_ctx: Any = None
         self.other_ctx_calls = 0
+        self.generator_based_awaitables = 0
         self.gen_shapes: dict[str, int] = {}
         self.setup_registrations = 0
         self.from_child_registrations = 0
@@ -253,8 +254,19 @@ class Run:
             def __await__(self) -> Any:
                 return self.coro.__await__()
 
+        import types
+
+        @types.coroutine
+        def generator_based() -> Any:
+            # a generator-based coroutine (`@types.coroutine`, what older libraries and some C extensions hand out): awaitable, but
+            # neither a coroutine object nor an instance of collections.abc.Awaitable
+            return (yield from body().__await__())
+
         def sync_awaitable_probe(*args: Any) -> Any:
             begin(args)
+            if cb["id"] % 2:
+                run.generator_based_awaitables += 1
+                return generator_based()
             return Awaitable()
 
         return sync_awaitable_probe
@@ -780,6 +792,8 @@ def features(run: Run) -> dict[str, int]:
                 inc("callback_form_unhashable_object")
     if any(byid[cid]["route"] == "resource" and byid[cid].get("ntypes", 0) > 1 for cid in order):
         inc("resource_route_multi_type")
+    if run.generator_based_awaitables:
+        inc("callbacks_returning_a_generator_based_coroutine", run.generator_based_awaitables)
     if run.other_ctx_calls:
         inc("ctxteardown_called_with_another_context", run.other_ctx_calls)
     for shape, n in run.gen_shapes.items():
